@@ -21,7 +21,8 @@ def vu(x, unit):
 
 
 def gen_case(rng):
-    shape = rng.choice(["generic", "generic", "generic", "single", "only_hot", "only_cold", "isothermal", "zero_dt", "dup_names", "unused_utils", "vu"])
+    shape = rng.choice(["generic", "generic", "generic", "single", "only_hot", "only_cold", "isothermal", "zero_dt", "dup_names", "unused_utils", "vu",
+                        "root_only_tree", "zero_duty"])
     labels = rng.choice([["A"], ["A", "B"], ["A/X", "A/Y", "B"], ["A/X/U", "A/X/V", "A/Y", "B"], ["/", "A"], ["A/", "/A"]])
     pr = P.gen_problem(rng, labels=labels, with_tree=(rng.random() < 0.2), util_kind=rng.choice(["none", "ladder", "outside", "mixed"]))
     ss = pr["streams"]
@@ -47,6 +48,26 @@ def gen_case(rng):
         pr["utilities"] = pr["utilities"] + [
             {"name": "VHP", "type": "Hot", "t_supply": hi + 300.0, "t_target": hi + 300.0, "heat_flow": 0.0, "dt_cont": 5.0, "htc": 1.0, "price": 500.0},
             {"name": "REF", "type": "Cold", "t_supply": -150.0, "t_target": -140.0, "heat_flow": 0.0, "dt_cont": 5.0, "htc": 1.0, "price": 900.0}]
+    elif shape == "root_only_tree":
+        # a legal tree that is just its root (child list absent, null or empty); every stream labelled with the root
+        root = rng.choice(["Plant", "Site", "A"])
+        pr["zone_tree"] = {"name": root, "type": rng.choice(["Site", "Process Zone"])}
+        k = rng.random()
+        if k < 0.35:
+            pr["zone_tree"]["children"] = None
+        elif k < 0.55:
+            pr["zone_tree"]["children"] = []
+        for s in ss:
+            s["zone"] = root
+    elif shape == "zero_duty":
+        # streams that carry no duty: some of them, or every stream of one zone
+        z = rng.choice(sorted({s["zone"] for s in ss}))
+        whole = rng.random() < 0.5
+        for s in ss:
+            if (s["zone"] == z and (whole or rng.random() < 0.7)) or rng.random() < 0.15:
+                s["heat_flow"] = 0.0
+        if all(s["heat_flow"] == 0.0 for s in ss):
+            ss[0]["heat_flow"] = 500.0
     elif shape == "vu":
         for s in pr["streams"]:
             s["t_supply"] = vu(s["t_supply"], "degC"); s["t_target"] = vu(s["t_target"], "degC")
